@@ -193,6 +193,35 @@ theorem C10_decimal_literal (ds rest : List Nat) (hd : ∀ c ∈ ds, Lx.isDigit 
 theorem C10_hex_literal (ds rest : List Nat) (hd : ∀ c ∈ ds, (Lx.hexVal c).isSome = true) (hr : ∀ c r, rest = c :: r → Lx.hexVal c = none) :
     Lx.accHex 0 (ds ++ rest) = (hexValue ds, rest) := accHex_digits ds rest hd hr 0
 
+/-- `get_int` itself on a decimal literal (not the beginning of a `0x` / `0o` literal): the value of its digits, the rest of the text left
+    where it is; with a leading `-` the negated value -/
+theorem C10_get_int_decimal (dflt : Int) (d : Nat) (ds rest : List Nat) (hd : ∀ c ∈ d :: ds, Lx.isDigit c = true)
+    (hr : ∀ c r, rest = c :: r → Lx.isDigit c = false)
+    (hx : Lx.startsWith [48, 120] (d :: ds ++ rest) = false) (ho : Lx.startsWith [48, 111] (d :: ds ++ rest) = false) :
+    Lx.getInt dflt (d :: ds ++ rest) = (decValue (d :: ds), rest) ∧
+    Lx.getInt dflt (45 :: d :: ds ++ rest) = (-decValue (d :: ds), rest) := by
+  have hd0 : Lx.isDigit d = true := hd d (by simp)
+  have hd36 : d ≠ 36 := by intro h; subst h; simp [Lx.isDigit] at hd0
+  have hd45 : d ≠ 45 := by intro h; subst h; simp [Lx.isDigit] at hd0
+  have hbody : ∀ sgn : Int, Lx.getIntBody dflt (sgn, d :: ds ++ rest) = (decValue (d :: ds) * sgn, rest) := by
+    intro sgn
+    have hacc := C10_decimal_literal (d :: ds) rest hd hr
+    simp only [List.cons_append] at hacc hx ho
+    simp only [Lx.getIntBody, List.cons_append, hx, ho, Lx.peek, List.headD_cons, hd36, hd0, hacc]
+    simp
+  constructor
+  · have : Lx.stripMinus (d :: ds ++ rest) = (1, d :: ds ++ rest) := by
+      simp only [List.cons_append]
+      unfold Lx.stripMinus
+      split
+      · rename_i h; simp at h; exact absurd h.1 hd45
+      · rfl
+    rw [Lx.getInt, this, hbody 1]; simp
+  · have : Lx.stripMinus (45 :: d :: ds ++ rest) = (-1, d :: ds ++ rest) := by simp [Lx.stripMinus]
+    rw [Lx.getInt, this, hbody (-1)]; simp
+
+example : Lx.getInt 7 ([49, 50] ++ [41]) = (12, [41]) ∧ Lx.getInt 7 (45 :: [49, 50] ++ [41]) = (-12, [41]) ∧ Lx.getInt 7 [41] = (7, [41]) := by decide +kernel
+
 -- `$100000000` is 2^32, `9223372036854775808` is 2^63 (the readers themselves do not wrap: the 64-bit domain is the tie's)
 example : hexValue [49, 48, 48, 48, 48, 48, 48, 48, 48] = 4294967296 ∧ decValue [57, 50, 50, 51, 51, 55, 50, 48, 51, 54, 56, 53, 52, 55, 55, 53, 56, 48, 56] = 9223372036854775808 := by decide +kernel
 
